@@ -81,6 +81,12 @@ class C08RoundTrip1D(Harness):
             x[n] = cx.int(n, 0) if kind == "int" else cx.real(n)
             if cx.sym and kind != "int":
                 cx.assume(x[n] >= 0)
+        if p["dtype"] == "float32":
+            # binary32 rounding is not modelled: values are multiples of 1/4 below 2^20 (exact in binary32)
+            for n in ("u", "o", "im"):
+                x[n] = cx.int(n + "4", 0, 2 ** 22) / 4.0
+            x["f"] = [cx.int(f"f4_{j}", 0, 2 ** 22) / 4.0 for j in range(2)]
+            x["q"] = [cx.int(f"q4_{j}", 0, 2 ** 22) / 4.0 for j in range(2)]
         declare_binning(cx, p["binning"], x, "e")
         return x
 
